@@ -83,7 +83,9 @@ def make_recorder(log: list, tag: int, g, sign: float):
 
     def rec(x, *args, **kwargs):
         xc = np.array(x, dtype=np.float64).reshape(-1).copy()
-        y = sign * g(xc)
+        y = g(xc)
+        if sign < 0:
+            y = -y  # exact, and keeps the type the objective returned (int, numpy scalar, float)
         log.append((tag, xc.tobytes(), y))
         if len(log) > EVAL_CAP:
             raise WatchdogAbort("evaluation cap")
